@@ -332,6 +332,9 @@ func (d *FormatDecoder) Next() (interface{}, error) {
 		return e, nil
 
 	case CaFormatACLGroupObj:
+		if hdr.Size != 24 {
+			return nil, InvalidFormat{}
+		}
 		e := FormatACLGroupObj{FormatHeader: hdr}
 		e.Permissions, err = d.r.ReadUint64()
 		if err != nil {
@@ -340,6 +343,9 @@ func (d *FormatDecoder) Next() (interface{}, error) {
 		return e, nil
 
 	case CaFormatACLDefault:
+		if hdr.Size != 48 {
+			return nil, InvalidFormat{}
+		}
 		e := FormatACLDefault{FormatHeader: hdr}
 		e.UserObjPermissions, err = d.r.ReadUint64()
 		if err != nil {
@@ -391,6 +397,9 @@ func (d *FormatDecoder) Next() (interface{}, error) {
 		return e, nil
 
 	case CaFormatIndex:
+		if hdr.Size != 48 {
+			return nil, InvalidFormat{}
+		}
 		e := FormatIndex{FormatHeader: hdr}
 		e.FeatureFlags, err = d.r.ReadUint64()
 		if err != nil {
